@@ -23,6 +23,7 @@ import RSVerif.Proofs.Roundtrip
 import RSVerif.Proofs.LocatorSpec
 import RSVerif.Proofs.RestoredBasic
 import RSVerif.Proofs.FlatEndToEnd
+import RSVerif.Proofs.SrcCodecSpec
 
 namespace RS
 
@@ -137,5 +138,22 @@ theorem flat_decoders_are_lane_decoders (s : Sched) (lw : Array Nat) (f : Flat) 
         (f'.absAt f.len64).map (bvecLanes f.len64)
           = decodeLow s lw k r recv (f.absV.map (bvecLanes f.len64))) :=
   flatDecode_lanes s lw f k r recv hwf hn
+
+open RS.RustC RS.SrcC in
+/-- the decoder bodies AS TRANSLATED FROM TODAY'S SOURCE (`Gen/SrcCodec.lean`: erasure marking loops,
+    `eval_poly`, the multiply / zero phases, ifft – formal derivative – fft, the reveal loop, with their
+    `usize` arithmetic) never overflow for a supported configuration and, run with the model's primitives,
+    ARE the model decoders `decodeHigh` / `decodeLow` — the functions `decode_high_restores`,
+    `decode_low_restores` and `roundtrip` above are about -/
+theorem source_decoders_are_model_decoders {V : Type} [ShardAlg V] (s : Sched) (lw : Array Nat) (k r : Nat)
+    (recv : Nat → Bool) (mem : Array V) :
+    (supportsHigh k r = true → mem.size = highDecWorkCount k r →
+      ∃ ops, HighRateDecoder_decode k r mem.size recv = some ops ∧
+        (runOps s lw ops mem).mem = decodeHigh s lw k r recv mem) ∧
+    (supportsLow k r = true → mem.size = lowDecWorkCount k r →
+      ∃ ops, LowRateDecoder_decode k r mem.size recv = some ops ∧
+        (runOps s lw ops mem).mem = decodeLow s lw k r recv mem) :=
+  ⟨fun hsup hsz => src_decode_high s lw k r hsup recv mem hsz,
+   fun hsup hsz => src_decode_low s lw k r hsup recv mem hsz⟩
 
 end RS
